@@ -2,7 +2,7 @@
 import itertools
 
 from ..core.choice_rng import ChoiceRng
-from ..core.explorer import explore
+from ..core.explorer import NOT_REPRODUCIBLE, explore
 from ..core.runner import Partial
 
 LEVEL = "exploration"
@@ -251,7 +251,7 @@ def task(args):
             except Exception as e:  # output that cannot even be decoded: a violation, never a harness crash
                 return f"output_malformed:{type(e).__name__}", repr(e)
 
-        for ch, res in explore(guarded, max_dev=dev_bound(cfg, max_dev, tier), cap=cap):
+        for ch, res in explore(guarded, max_dev=dev_bound(cfg, max_dev, tier), cap=cap, diverged=lambda msg: (NOT_REPRODUCIBLE, msg)):
             if ch is None:
                 capped = True
                 break
